@@ -11,6 +11,7 @@ characters back.
 import html
 import json
 import os
+import sys
 import unicodedata
 from concurrent.futures import ThreadPoolExecutor
 
@@ -165,8 +166,16 @@ def run():
 
 
 INLINE_ALPHABETS = {'I1': ['a', ' ', '*', '`', '\\'], 'I2': ['a', '*', '`', '<', '>', '/'], 'I3': ['a', ':', '<', '>', '*', '`'],
-                    'I4': ['a', ' ', '`', '<', '>', '\\', '_']}
+                    'I4': ['a', ' ', '`', '<', '>', '\\', '_'],
+                    # entity and numeric character references
+                    'E1': ['&', '#', '3', '5', ';', 'a', 'x'], 'E2': ['&', 'a', 'm', 'p', ';', 'l', 't'], 'E3': ['&', '#', '4', '2', ';', '*'],
+                    'E4': ['&', 'l', 't', ';', '`', '\\', 'a']}
 INLINE_UNSETTLED = {'unsettled-escaped-backtick-before-backticks', 'unsettled-autolink-address-spelling'}
+
+
+def notation(s):
+    """Characters outside printable ASCII spelled {U+XXXX}, as spec/InlineScan.tla spells what a character reference stands for."""
+    return ''.join(c if 32 <= ord(c) < 127 else '{U+%04X}' % ord(c) for c in s)
 
 
 def inline_scan_layer(ck, m, quick):
@@ -174,6 +183,10 @@ def inline_scan_layer(ck, m, quick):
     protecting what they cover from the delimiter algorithm; every string up to length 5 (quick) / 6 (thorough) over four raw
     alphabets, sharded by the first character."""
     jobs = [('InlineScan%s%s.cfg' % (a, 'q' if quick else 't'), ch) for a, chars in sorted(INLINE_ALPHABETS.items()) for ch in chars if ch != ' ']
+    sys.path.insert(0, core.VERIF + '/tools')
+    import gen_entity_table
+    if gen_entity_table.table() != gen_entity_table.in_module(core.SPEC + '/InlineScan.tla'):
+        raise core.MachineryError('the entity table of InlineScan.tla differs from the HTML5 table restricted to its letters')
 
     def one(job):
         cfg, sh = job
@@ -192,7 +205,7 @@ def inline_scan_layer(ck, m, quick):
             if set(rec['tags']) & INLINE_UNSETTLED:
                 skipped += 1
                 continue
-            got = observed(m, text)
+            got = notation(observed(m, text))
             ck.count(('inline', text))
             n += 1
             ck.traces += 1
@@ -202,14 +215,14 @@ def inline_scan_layer(ck, m, quick):
                 ck.violation('inline scan: input=%r expected=%r observed=%r' % (text, rec['html'], got),
                              {'input': text, 'expected': rec['html'], 'observed': got, 'classes': sorted(rec['tags']),
                               'clause': 'Inline.scan' if not got.startswith('EXCEPTION') else 'Emphasis.failure'})
-    if n < 20000:
+    if n < (120000 if quick else 400000):
         raise core.MachineryError('InlineScan.tla exported only %d strings' % n)
     ck.extra['inline_scan_strings'] = n
     ck.extra['inline_scan_unsettled_not_judged'] = skipped
 
 
 LINK_ALPHABETS = {'K1': ['a', '(', ')', '\\', ' ', '"'], 'K2': ['a', '<', '>', '\\', ' ', ')'], 'K3': ['a', "'", '(', ')', ' ', '"'],
-                  'K4': ['a', '(', ')', ' ']}
+                  'K4': ['a', '(', ')', ' '], 'K5': ['&', 'l', 't', ';', '\\', ')']}
 
 
 def link_syntax_layer(ck, m, quick):
@@ -231,7 +244,7 @@ def link_syntax_layer(ck, m, quick):
             if text in seen:
                 continue
             seen.add(text)
-            got = observed(m, text)
+            got = notation(observed(m, text))
             ck.count(('link-syntax', text))
             n += 1
             links += rec['link'] == 'yes'
